@@ -70,15 +70,16 @@ Fixpoint assocZ {A} (k : Z) (l : list (Z * A)) : option A :=
   | (k', v) :: t => if k =? k' then Some v else assocZ k t
   end.
 
-(* Ok (neg, bitwidth, num) as bound by the statements up to and including the try block;
+(* The '-', "'", 's', '_' characters and the default radix are the literals of the source (Gen/Conv.v).
+   Ok (neg, bitwidth, num) as bound by the statements up to and including the try block;
    error codes are the ordinals of the raises of _convert_verilog_str: 2 = not two parts,
    3 = 's' (signed) marker, 4 = IndexError/ValueError inside the try. *)
 Definition verilog_parse (val : str) : res (bool * Z * Z) :=
   let '(neg, val1) := match val with
-                      | c :: t => if c =? 45 then (true, t) else (false, val)
+                      | c :: t => if c =? verilog_neg_char then (true, t) else (false, val)
                       | [] => (false, val)
                       end in
-  match split_on 39 (map lower val1) [] with
+  match split_on verilog_sep_char (map lower val1) [] with
   | [ws; sval] =>
       match py_int 10 ws with
       | None => Err 4
@@ -86,13 +87,13 @@ Definition verilog_parse (val : str) : res (bool * Z * Z) :=
           match sval with
           | [] => Err 4
           | c :: rest =>
-              if c =? 115 then Err 3
+              if c =? verilog_signed_marker then Err 3
               else
                 let '(base, sval1) := match assocZ c verilog_bases with
                                       | Some b => (b, rest)
-                                      | None => (10, sval)
+                                      | None => (verilog_default_base, sval)
                                       end in
-                match py_int base (filter (fun x => negb (x =? 95)) sval1) with
+                match py_int base (filter (fun x => negb (x =? verilog_ignored_char)) sval1) with
                 | None => Err 4
                 | Some num => Ok (neg, bw, num)
                 end
@@ -100,6 +101,11 @@ Definition verilog_parse (val : str) : res (bool * Z * Z) :=
       end
   | _ => Err 2
   end.
+
+(* the texts  [-]<decimal width>'[<radix letter>]<body>  (used to state the print/parse theorems) *)
+Definition verilog_print (neg : bool) (w : Z) (letter : option Z) (body : str) : str :=
+  (if neg then [verilog_neg_char] else []) ++ nat_str 10 w
+  ++ verilog_sep_char :: (match letter with Some c => [c] | None => [] end) ++ body.
 
 Definition verilog_str (s : str) (bitwidth : option Z) (signed : bool) : res (Z * Z) :=
   if signed then Err 1
@@ -123,21 +129,26 @@ Definition infer (r : rawinput) (bitwidth : option Z) (signed : bool) : res (Z *
   | ROther => Err 1
   end.
 
-(* WireVector._validate_bitwidth *)
-Definition validate_bitwidth (bitwidth : option Z) : bool :=
-  match bitwidth with None => true | Some b => 1 <=? b end.
-
-(* Const(val, bitwidth, signed): validate, infer, post-checks, WireVector.__init__ validates again *)
+(* Const(val, bitwidth, signed): WireVector._validate_bitwidth (Gen/Conv.v) on the argument, infer,
+   the post-checks (Gen/Conv.v), then WireVector.__init__ validates the resulting bitwidth again.
+   Error codes: 100+k / 300+k = k-th raise of _validate_bitwidth (first / second call),
+   200+k = k-th raise of Const.__init__, others = infer's. *)
 Definition const_model (r : rawinput) (bitwidth : option Z) (signed : bool) : res (Z * Z) :=
-  if negb (validate_bitwidth bitwidth) then Err 101
-  else match infer r bitwidth signed with
-       | Err k => Err k
-       | Ok (num, bw) =>
-           match const_postchecks num bw with
-           | Some k => Err (200 + k)
-           | None => if validate_bitwidth (Some bw) then Ok (num, bw) else Err 102
-           end
-       end.
+  match validate_bitwidth bitwidth with
+  | Err k => Err (100 + k)
+  | Ok _ =>
+      match infer r bitwidth signed with
+      | Err k => Err k
+      | Ok (num, bw) =>
+          match const_postchecks num bw with
+          | Some k => Err (200 + k)
+          | None => match validate_bitwidth (Some bw) with
+                    | Err k => Err (300 + k)
+                    | Ok _ => Ok (num, bw)
+                    end
+          end
+      end
+  end.
 
 (* ---- formatted_str_to_val / val_to_formatted_str ---------------------------------- *)
 (* format = type character followed by decimal bitwidth, optionally "/EnumName".
